@@ -855,3 +855,30 @@ func TestEveryPoolKey(t *testing.T) {
 		}
 	}
 }
+
+// TestDecoratedIdentifiers: the canonical identifier of one key of every algorithm, DECORATED in the ways identifiers
+// are decorated in the wild - a version segment (did:key:1:z...), DID URL parts (#fragment, ?query, /path, ;param),
+// another case, blanks and line ends around or inside, percent-encoding, a doubled or missing separator, the method
+// name spelled otherwise. None of them is "did:key:z" + base58btc: each is rejected (and if one were accepted, it
+// would be a second identifier for the same principal).
+func TestDecoratedIdentifiers(t *testing.T) {
+	n := 0
+	for _, a := range keys.AllAlgs {
+		base := keys.Get(a, 0).DID.String()
+		mb := base[len("did:key:"):]
+		forms := []string{
+			"did:key:1:" + mb, "did:key:01:" + mb, "did:key:001:" + mb, "did:key:0:" + mb, "did:key:2:" + mb, "did:key:1.0:" + mb, "did:key:v1:" + mb, "did:key::" + mb, "did:key:1::" + mb,
+			base + "#" + mb, base + "#", base + "#key-1", base + "?versionId=1", base + "?", base + "/", base + "/path", base + ";service=x", base + ":", base + ":1",
+			"DID:KEY:" + mb, "Did:Key:" + mb, "did:KEY:" + mb, "did:key:" + strings.ToUpper(mb[:1]) + mb[1:],
+			" " + base, base + " ", base + "\n", base + "\r\n", "\t" + base, base + "\x00", "\ufeff" + base, "did:key: " + mb, "did:key:" + mb[:5] + " " + mb[5:], "did:key:" + mb[:5] + "\n" + mb[5:],
+			"did%3Akey%3A" + mb, "did:key:%7A" + mb[1:], "did:key:" + mb + "%20",
+			"did:key" + mb, "did:" + mb, "did::key:" + mb, "did:key:key:" + mb, "did:keys:" + mb, "did:ke:" + mb, "urn:did:key:" + mb, "did:key:did:key:" + mb,
+			"<" + base + ">", "\"" + base + "\"", "did:key:" + mb + mb[:1], base + "=", base + "==",
+		}
+		for _, f := range forms {
+			strProp.One(t, StrCase{f})
+			n++
+		}
+	}
+	P.Sample(map[string]any{"decorated_identifiers": n})
+}
